@@ -273,7 +273,9 @@ func hardenLongFields(e *env) {
 	add("extension value", func(ct *cr.Cert, n int) {
 		ct.Extensions = []cr.Option{cr.Valued("foo@example.com", strings.Repeat("v", n)), cr.Flag("permit-pty")}
 	})
-	add("supported critical option value", func(ct *cr.Cert, n int) { ct.Critical = []cr.Option{cr.Valued("force-command", strings.Repeat("/", n))} })
+	add("supported critical option value", func(ct *cr.Cert, n int) {
+		ct.Critical = []cr.Option{cr.Valued("force-command", strings.Repeat("/", n))}
+	})
 	add("unsupported critical option with long name", func(ct *cr.Cert, n int) { ct.Critical = []cr.Option{cr.Flag(strings.Repeat("u", n))} })
 	add("nonce", func(ct *cr.Cert, n int) { ct.Nonce = bytes.Repeat([]byte{7}, n) })
 	add("reserved", func(ct *cr.Cert, n int) { ct.Reserved = bytes.Repeat([]byte{9}, n) })
